@@ -758,7 +758,15 @@ func gather(nodes []wNode, codecIsLong bool) wNode {
 			return makeBranch(nodes, resources)
 		}
 
-		newNodes = append(newNodes, makeBranch(nodes[i:], resources))
+		if tail := nodes[i:]; (len(tail) == 1) && (len(tail[0].children) != 0) {
+			// Do not wrap a lone branch node in another branch node. The
+			// wrapper would have the same DPtrMax as its only child and, as
+			// non-root branch nodes are written before their children, a lower
+			// COffset, violating the RAC spec's rule against infinite loops.
+			newNodes = append(newNodes, tail[0])
+		} else {
+			newNodes = append(newNodes, makeBranch(tail, resources))
+		}
 		if len(resources) != 0 {
 			resources = map[OptResource]bool{}
 		}
